@@ -109,6 +109,20 @@ def jobs(prop, tier):
                          bounds='one handler step from every passive handler state related to a recogniser state, telegram parts up to NN=%d data bytes' % nn, **dict(BUS, solver=PORTFOLIO)))
         J.append(Job('C01', 'step_init', 'C01_step.cpp', defs={'NNMAX': 1, 'INIT': None}, unwind=3, shape='K', timeout=600 if T else 300,
                      unwindset={'vp_main': 9, 'RecListener': 9, 'related': 9}, bounds='the real initial state is related; one step from it', **dict(BUS, solver=PORTFOLIO)))
+    if prop in ('C02', 'C03', 'C04'):
+        BUS = dict(link=['lib/ebus/symbol.cpp', 'lib/ebus/device_trans.cpp', 'lib/ebus/result.cpp', 'lib/utils/thread.cpp'],
+                   models=['string', 'libc', 'sstream', 'posix', 'containers'], solver=PORTFOLIO)
+        pn = int(prop[2])
+        # (phase of the exchange, numeric BusState of protocol_direct.h, job name)
+        phases = [(0, 2, 'arb'), (2, 15, 'endsyn'), (1, 9, 'sendcmd'), (1, 10, 'sendcmdcrc'), (1, 5, 'recvcmdack'),
+                  (1, 6, 'recvres'), (1, 7, 'recvrescrc'), (1, 11, 'sendresack')]
+        for nn in ((3, 16) if T else (16,)):
+          for (mode, hstate, nm) in phases:
+            if nm == 'arb' and not T:
+                nn = 3   # the arbitration step does not look at the data bytes; the full size runs in the thorough tier (~5 min)
+            J.append(Job(prop, 'act_%s_nn%d' % (nm, nn), 'C02_step.cpp', defs={'NNMAX': nn, 'PROP': pn, 'MODE': mode, 'HSTATE': hstate}, unwind=5, shape='S', timeout=3000 if T else 300,
+                         unwindset={'vp_main': 257, 'RecListener': nn + 8, 'related': nn + 8, 'relatedActive': nn + 8, 'reqIsM': nn + 8, 'setVec': nn + 8},
+                         bounds='one handler step from every state of phase "%s" of an own exchange related to a sender monitor state, request NN <= %d, response NN <= %d' % (nm, nn, nn), **BUS))
     if prop == 'C15':
         BUS = dict(link=['lib/ebus/symbol.cpp', 'lib/ebus/device_trans.cpp', 'lib/ebus/result.cpp', 'lib/utils/thread.cpp'],
                    models=['string', 'libc', 'sstream', 'posix', 'containers'], solver=PORTFOLIO)
@@ -219,6 +233,9 @@ BUS_NOTE = ('Trusted: clang-14 lowering, ll2c, models (string, sstream, posix, c
             '(every read result = timeout | error | chunk of 1..2 arbitrary bytes), clock = arbitrary non-decreasing instants, logging off. '
             'DirectProtocolHandler::run() itself (thread start, 5 s reopen wait) is not encoded; its loop body is re-stated in env_bus.h Stepper.')
 META = {
+ 'C02': dict(claimed=False, level_text='tbd', level_note='tbd', outside_claim='tbd', assumptions=COMMON_ASSUME),
+ 'C03': dict(claimed=False, level_text='tbd', level_note='tbd', outside_claim='tbd', assumptions=COMMON_ASSUME),
+ 'C04': dict(claimed=False, level_text='tbd', level_note='tbd', outside_claim='tbd', assumptions=COMMON_ASSUME),
  'C20': dict(
    level_text='Bounded model checking of memory safety and bounded work on the kernels that consume untrusted bytes: adapter frames incl. arbitrary INFO transfers into the 17-byte info buffer (real notifyInfoRetrieved), chunked adapter streams, escaped hex parsing, numeric field decode/encode at arbitrary offsets, numeric text parsing for every libc outcome, answer-key construction. Obligations are CBMC built-in checks (array bounds, pointer validity incl. freed objects, division by zero, signed overflow, uncaught-exception model, unwinding assertions) plus shift/conversion checks confirmed by native UBSan replay.',
    level_note='Covers only the listed kernels. NOT covered (beyond this encoding, see DESIGN section 8): the protocol handler state machine on arbitrary bus traffic, client command lines and HTTP requests through MainLoop, CSV/definition loaders, leak freedom of request objects. Those interfaces are fuzzing territory; no claim is made for them.',
